@@ -49,6 +49,8 @@ type shadow struct {
 	w     accessRec
 	hasW  bool
 	reads []accessRec
+	aw    accessRec // last atomic store / read-modify-write of the word
+	hasAW bool
 }
 
 type raceState struct {
@@ -126,6 +128,9 @@ func (r *raceState) access(t *Thread, p unsafe.Pointer, write bool, site string)
 	if s.hasW && s.w.thread != t.idx && s.w.clock > vc.get(s.w.thread) {
 		r.report(s.w, true, me, write)
 	}
+	if s.hasAW && s.aw.thread != t.idx && s.aw.clock > vc.get(s.aw.thread) {
+		r.report(s.aw, true, me, write) // a plain access not ordered after an atomic write of the word
+	}
 	if write {
 		for _, rd := range s.reads {
 			if rd.thread != t.idx && rd.clock > vc.get(rd.thread) {
@@ -189,6 +194,46 @@ func AtomicSync(addr unsafe.Pointer) {
 		e.race.acquire(e.cur, addr)
 		e.race.release(e.cur, addr)
 	}
+}
+
+// AtomicSyncR / AtomicSyncW: an atomic load / an atomic store or read-modify-write of the word at addr.
+// Besides being a release+acquire, the operation is an access to that word: it conflicts with PLAIN
+// accesses to the same word that happens-before does not order (an atomic add outside a lock and a plain
+// read inside it is a data race), never with other atomic operations.
+func AtomicSyncR(addr unsafe.Pointer) {
+	AtomicSync(addr)
+	if e := ex; e != nil && e.race != nil && !e.killing && !e.advancing {
+		e.race.atomicAccess(e.cur, addr, false)
+	}
+}
+
+func AtomicSyncW(addr unsafe.Pointer) {
+	AtomicSync(addr)
+	if e := ex; e != nil && e.race != nil && !e.killing && !e.advancing {
+		e.race.atomicAccess(e.cur, addr, true)
+	}
+}
+
+func (r *raceState) atomicAccess(t *Thread, p unsafe.Pointer, write bool) {
+	vc := r.of(t)
+	s := r.mem[p]
+	if s == nil {
+		s = &shadow{}
+		r.mem[p] = s
+	}
+	me := accessRec{t.idx, vc[t.idx], "(an atomic operation on the same word)"}
+	if s.hasW && s.w.thread != t.idx && s.w.clock > vc.get(s.w.thread) {
+		r.report(s.w, true, me, write) // not ordered after a plain write of the word
+	}
+	if !write {
+		return
+	}
+	for _, rd := range s.reads {
+		if rd.thread != t.idx && rd.clock > vc.get(rd.thread) {
+			r.report(rd, false, me, true) // an atomic write not ordered after a plain read of the word
+		}
+	}
+	s.aw, s.hasAW = me, true
 }
 
 // NoteCancel is called by vctx before a context is cancelled: whatever the
